@@ -29,8 +29,9 @@ TIERS = {'quick': {'budget_s': 45, 'batch': 20}, 'thorough': {'budget_s': 600, '
 def gen_case(seed, tier):
     rng = substream(seed, 'c20')
     if rng.random() < 0.15:
-        return {'seed': seed, 'sched_seed': seed, 'kind': 'command', 'L': rng.choice([2000, 8000, 50000]), 'N': rng.choice([1, 1, 2, 3]),
-                'size': rng.choice([500, 3000, 9000]), 'opts': world.SchedOpts.swarm(rng).as_dict(), 'flavour': rng.choice(['sync', 'async'])}
+        return {'seed': seed, 'sched_seed': seed, 'kind': 'command', 'L': rng.choice([500, 2000, 8000, 20000, 50000]), 'N': rng.choice([1, 1, 2, 3]),
+                'size': rng.choice([500, 3000, 9000, 40000, 120000]), 'big_chunks': rng.random() < 0.5,
+                'objects': rng.random() < 0.4, 'opts': world.SchedOpts.swarm(rng).as_dict(), 'flavour': rng.choice(['sync', 'async'])}
     L = rng.choice([100, 1000, 64000, 10**6, 12345])
     n = rng.choice([1, 1, 2, 3, 4])
     dmax = max(L // 4, 1)
@@ -316,6 +317,9 @@ def run_command(case):
             want[f'f{i}'] = data
         client = world.Client('u', concurrent=case['N'])
         settings = {'chunking': {'min_length': 64, 'max_length': 512}, 'encryption': None}
+        if case.get('big_chunks'):
+            # chunk objects larger than any plausible transfer block, so the block size the command picks matters
+            settings = {'chunking': {'min_length': 4096, 'max_length': 65536}, 'encryption': None}
         opts = world.SchedOpts.from_dict(case['opts'])
         r0 = W.init(client, settings, world.SchedOpts.sequential())
         L = case['L']
@@ -331,6 +335,44 @@ def run_command(case):
         if case['N'] == 1 and up > L * (t1 - t0) + A + 1e-6 * L:
             viol.append({'cls': 'command-rate-exceeded', 'sig': {'cmd': 'snapshot'},
                          'msg': f'snapshot uploaded {up} payload bytes in {t1 - t0:.3f} simulated s with --limit-rate {L} (allowance {A:.0f})'})
+        if case.get('objects'):
+            # upload-objects / download-objects pick their block size the same way
+            import os as _os
+            cwd = _os.getcwd()
+            _os.chdir(W.dir)
+            try:
+                async def do_up(repo):
+                    from pathlib import Path
+                    return await repo.upload_objects([Path('src')], rate_limit=L)
+                t0 = W.env.now
+                before = r1.backend.payload_uploaded
+                ru = W.run(client, do_up, opts, unlock=False)
+                t1 = W.env.now
+                total = sum(len(v) for v in want.values())
+                if not ru.ok:
+                    viol.append({'cls': 'command-failed', 'sig': {'cmd': 'upload-objects'}, 'msg': f'upload-objects with rate limit failed: {ru.outcome()} {ru.exc or ru.hang!r}'})
+                elif case['N'] == 1 and total > L * (t1 - t0) + A + 1e-6 * L:
+                    viol.append({'cls': 'command-rate-exceeded', 'sig': {'cmd': 'upload-objects'},
+                                 'msg': f'upload-objects sent {total} bytes in {t1 - t0:.3f} simulated s with --limit-rate {L} (allowance {A:.0f})'})
+
+                async def do_down(repo):
+                    return await repo.download_objects(path=W.dir / 'objs', object_prefix='src/', rate_limit=L)
+                t0 = W.env.now
+                rd = W.run(client, do_down, opts, unlock=False)
+                t1 = W.env.now
+                if not rd.ok:
+                    viol.append({'cls': 'command-failed', 'sig': {'cmd': 'download-objects'}, 'msg': f'download-objects with rate limit failed: {rd.outcome()} {rd.exc or rd.hang!r}'})
+                else:
+                    got = {p.name: p.read_bytes() for p in (W.dir / 'objs' / 'src').iterdir()} if (W.dir / 'objs' / 'src').exists() else {}
+                    if got != want:
+                        viol.append({'cls': 'data-altered', 'sig': {'dir': 'objects'}, 'msg': 'upload-objects + download-objects with rate limit do not reproduce the files'})
+                    elif case['N'] == 1 and total > L * (t1 - t0) + A + 1e-6 * L:
+                        viol.append({'cls': 'command-rate-exceeded', 'sig': {'cmd': 'download-objects'},
+                                     'msg': f'download-objects wrote {total} bytes in {t1 - t0:.3f} simulated s with --limit-rate {L}'})
+            finally:
+                _os.chdir(cwd)
+            if viol:
+                return {'violations': viol, 'digest': W.digest(), 'probes': probes, 'sim_s': W.sim_s, 'steps': W.sim_steps}
         t0 = W.env.now
         r2 = W.restore(client, W.dir / 'out', opts, rate_limit=L)
         t1 = W.env.now
